@@ -206,6 +206,11 @@ pub async fn run_case(setup: String, events: String, take: bool) -> String {
                     s if s.starts_with('l') && s[1..].parse::<usize>().map(|i| i < local_tags.len()).unwrap_or(false) => {
                         Some(local_tags[s[1..].parse::<usize>().unwrap()].clone())
                     }
+                    // "L<i>": the local tag of dialog i with the case of every letter swapped - another tag (tags are compared byte-wise)
+                    s if s.starts_with('L') && s[1..].parse::<usize>().map(|i| i < local_tags.len()).unwrap_or(false) => {
+                        let t = &local_tags[s[1..].parse::<usize>().unwrap()];
+                        Some(t.chars().map(|c| if c.is_ascii_lowercase() { c.to_ascii_uppercase() } else { c.to_ascii_lowercase() }).collect())
+                    }
                     s => Some(s.to_string()),
                 };
                 let cseq: u64 = p[4].parse().unwrap();
